@@ -5,6 +5,7 @@ Pure `ast`; nothing under the analysed repository is imported or executed.
 from __future__ import annotations
 
 import ast
+import copy
 import os
 import sys
 
@@ -314,6 +315,14 @@ class Repo:
             tag_sources({k: (v[1], v[3]) for k, v in parsed.items()})
         self.inlined = inline_new_helpers(trees)  # extracted helpers go back into their callers
         touched = {c.split(":")[0] for _, c, _ in self.inlined}
+        from .inline import unroll_object_loops
+        probe = any(isinstance(n, ast.For) and isinstance(n.iter, (ast.Tuple, ast.List)) and n.iter.elts and not isinstance(n.iter.elts[0], ast.Constant)
+                    for t_ in trees.values() for n in ast.walk(t_))
+        if probe:
+            if not self.inlined and not inline_new_helpers(trees, dry=True):
+                tag_sources({k: (v[1], v[3]) for k, v in parsed.items()})
+            self.unrolled = unroll_object_loops(trees)
+            touched |= {c.split(":")[0] for c, _ in self.unrolled}
         for modname, (path, rel, src, tree) in parsed.items():
             if modname in touched:
                 # positions are used to order constructs: give the normalised module consistent ones (the original file and line of
